@@ -13,10 +13,10 @@ Bad(r) ==
   \cup (IF r.same_coords THEN {} ELSE {"coords"}) \cup (IF r.same_values THEN {} ELSE {"values"})
   \cup (IF r.same_attrs THEN {} ELSE {"attrs"}) \cup (IF r.same_name THEN {} ELSE {"name"})
   \cup (IF r.core_ok THEN {} ELSE {"core"}) \cup (IF r.passthrough_ok THEN {} ELSE {"passthrough"})
-  \cup (IF r.predict /\ NativeDims(r.objdims, r.gdims, ToSet(r.reduce), r.gname) # r.native_dims THEN {"drift"} ELSE {})
+  \cup (IF r.predict /\ NativeDimsOf(r.objdims, r.gdims, ToSet(r.reduce), r.gname, r.dataset) # r.native_dims THEN {"drift"} ELSE {})
 Init == l = 1
 Next == /\ l <= Len(TraceLog)
-        /\ LET r == TraceLog[l] IN IF Bad(r) = {} THEN TRUE ELSE PrintT(<<"FAIL", r.id, Bad(r), NativeDims(r.objdims, r.gdims, ToSet(r.reduce), r.gname)>>)
+        /\ LET r == TraceLog[l] IN IF Bad(r) = {} THEN TRUE ELSE PrintT(<<"FAIL", r.id, Bad(r), NativeDimsOf(r.objdims, r.gdims, ToSet(r.reduce), r.gname, r.dataset)>>)
         /\ l' = l + 1
 Spec == Init /\ [][Next]_l
 TraceAccepted == TLCGet("stats").diameter = Len(TraceLog) + 1
